@@ -50,7 +50,7 @@ PLAN = {
     "C10": dict(quick=640, thorough=20000, timeout=180), "C12": dict(quick=640, thorough=20000, timeout=180),
     "C16": dict(quick=640, thorough=20000, timeout=180), "C39": dict(quick=480, thorough=20000, timeout=180),
     "C13": dict(quick=96, thorough=4800, timeout=240, space=48), "C14": dict(quick=160, thorough=8000, timeout=240),
-    "C23": dict(quick=160, thorough=8000, timeout=240), "C26": dict(quick=160, thorough=8000, timeout=240),
+    "C23": dict(quick=160, thorough=8000, timeout=240), "C26": dict(quick=160, thorough=8000, timeout=240, extra=[("C26S", dict(quick=120, thorough=6000, timeout=240))]),
     "C34": dict(quick=20000, thorough=1000000, timeout=60),
     "C37": dict(quick=5000, thorough=500000, timeout=120),
     "C31": dict(quick=8000, thorough=2000000, timeout=60),
